@@ -1,2 +1,38 @@
-(* C17 *)
-From Grex Require Import Base.Str.
+(* C17 — the WebAssembly binding: every setter forwards to the library setter, and a program
+   over several JavaScript builder objects behaves like independent library builders.
+
+   wasm_setter / wasm_apply / wasm_to_lib are GENERATED from src/wasm.rs (gen/SrcWasm.v).
+   wrun runs a program of operations on a heap of builder objects: WSet i s mutates object i
+   and returns a clone of it (a new object), WBuild i builds from object i; `ancestries` is,
+   for every object, the linear library history that produced it (Model/History.v). *)
+From Grex Require Import Base.Str Model.Config Model.Builder Model.Pipeline Model.History.
+From Grex Require Import Proofs.Wrappers.
+From GrexGen Require Import SrcBuilder SrcWasm.
+
+Theorem C17_setters : forall s c, wasm_apply s c = apply_setter (wasm_to_lib s) c.
+Proof. exact Wrappers.C17_setters. Qed.
+
+(* every object of the final heap is the state of the library builder after its own ancestry,
+   and the outputs are the expected ones *)
+Theorem C17_refines : forall (isd : cp -> bool) (db : odb) (sc : cfg -> list str -> selfcheck),
+  (forall s, lower' db (lower' db s) = lower' db s) ->
+  forall ops ws h outs,
+  wrun isd db sc [mkB ws src_default_cfg] ops = Some (h, outs) ->
+  Forall2 (fun st a => exists o, brun isd db sc (mkB ws src_default_cfg) a = Some (st, o))
+          h (ancestries [[]] ops)
+  /\ outs = wexpected isd db sc ws src_default_cfg [[]] ops.
+Proof. exact Wrappers.C17_refines. Qed.
+
+(* the state of object i: the settings accumulated along its ancestry, the test cases *)
+Theorem C17_object_state : forall (isd : cp -> bool) (db : odb) (sc : cfg -> list str -> selfcheck),
+  (forall s, lower' db (lower' db s) = lower' db s) ->
+  forall ops ws h outs i st,
+  wrun isd db sc [mkB ws src_default_cfg] ops = Some (h, outs) ->
+  nth_error h i = Some st ->
+  let a := nth i (ancestries [[]] ops) [] in
+  cfg_after src_default_cfg a = Some (b_cfg st) /\ b_tcs st = tcs_after db ws src_default_cfg a.
+Proof. exact Wrappers.C17_object_state. Qed.
+
+Print Assumptions C17_setters.
+Print Assumptions C17_refines.
+Print Assumptions C17_object_state.
